@@ -61,3 +61,11 @@ Definition ext_identity (method : pyv) : res pyv :=
   | VInt c => Ok (match ufunc_ident c with Some e => VInt e | None => VNone end)
   | _ => Raise TypeError
   end.
+
+(* a dtype (code of tools/sitegen/reduce.py DTYPE_CODES) belongs to a set of dtype codes: the meaning of
+   issubclass(d.type, <classes>) / np.issubdtype(d, <class>) once the classes are resolved *)
+Definition ext_dtype_in (codes : list Z) (d : pyv) : res pyv :=
+  match d with
+  | VInt c => Ok (VBool (existsb (Z.eqb c) codes))
+  | _ => Raise TypeError
+  end.
